@@ -1,7 +1,7 @@
 (* C08 — property theorems only (statements + [exact]); see Proofs.v for the proofs. *)
 From Coq Require Import List NArith String.
 From V.Base Require Import Hex BigEndian.
-From V.C08 Require Import Model Proofs Typed TypedProofs.
+From V.C08 Require Import Model Proofs Typed TypedProofs Codec CodecProofs Desc Gen GenProofs Stream StreamProofs.
 Import ListNotations.
 Local Open Scope N_scope.
 
@@ -59,4 +59,110 @@ Proof. vm_compute. repeat split; reflexivity. Qed.
 Example C08_example :
   let t := Lst [Str [1]; Str [200]; Lst [Str []; Str (repeat 7 60)]; Str [0; 255]] in
   item_okb t = true /\ decode_bytes (encode t) = Ok t.
+Proof. vm_compute. split; reflexivity. Qed.
+
+(* ---------- typed codec at the byte / stream level (Codec.v), for ALL descriptors ---------- *)
+(* [tenc] follows encode.go's makeWriter and writes bytes; [tdec] follows decode.go's makeDecoder on the
+   remaining bytes of the current list / limited input. Descriptors: every [ty] the reflection layer
+   produces ([cty_ok]: integer widths 1/2/4/8 bytes, a pointee is never itself nil-tagged), except a
+   nil-tagged pointer (chain) to RawValue, whose nil value the encoder writes as zero bytes.
+   Values ([wfv]): no nil where the decoder allocates (plain pointers, *big.Int, interface{}), a non-nil
+   nil-tagged pointer does not point at something written as 0x80 / 0xC0, a RawValue holds one complete
+   value with a canonical header. *)
+Theorem C08_codec_roundtrip : forall t v e,
+  cty_ok t = true -> wfv t v = true -> tenc t v = Some e -> tdec_bytes t e = Ok v.
+Proof. exact codec_roundtrip_bytes. Qed.
+Print Assumptions C08_codec_roundtrip.
+
+(* inside any enclosing list / before any trailing input: exactly the value's bytes are consumed *)
+Theorem C08_codec_roundtrip_stream : forall t v e rest top,
+  cty_ok t = true -> wfv t v = true -> tenc t v = Some e -> tdec t top (e ++ rest) = Ok (v, rest).
+Proof. exact codec_roundtrip. Qed.
+Print Assumptions C08_codec_roundtrip_stream.
+
+(* whatever a typed decoder accepts is byte-for-byte the typed encoder's output for the value returned,
+   and that value is again in the round-trip domain *)
+Theorem C08_codec_canonical : forall t b v,
+  cty_ok t = true -> bytes_ok b -> tdec_bytes t b = Ok v -> tenc t v = Some b /\ wfv t v = true.
+Proof. exact codec_canonical_bytes. Qed.
+Print Assumptions C08_codec_canonical.
+
+Theorem C08_codec_one_encoding : forall t b1 b2 v,
+  cty_ok t = true -> bytes_ok b1 -> bytes_ok b2 -> tdec_bytes t b1 = Ok v -> tdec_bytes t b2 = Ok v -> b1 = b2.
+Proof. exact codec_one_encoding. Qed.
+Print Assumptions C08_codec_one_encoding.
+
+(* a successful typed decode consumed a prefix of what was there: nothing past the declared input *)
+Theorem C08_codec_reads_within : forall t top b v rest,
+  cty_ok t = true -> bytes_ok b -> tdec t top b = Ok (v, rest) ->
+  exists e, b = e ++ rest /\ (List.length e + List.length rest = List.length b)%nat.
+Proof. exact codec_reads_within. Qed.
+Print Assumptions C08_codec_reads_within.
+
+(* ---------- the descriptors GENERATED from the node sources (Gen.v) ---------- *)
+(* every type the extractor finds is either inside the theorems' domain or on the explicit list
+   [gen_outside] (custom codecs; values of the trie's non-empty `node` interface, encode-only) *)
+Theorem C08_generated_covered : forall name g, In (name, g) gen_types ->
+  (exists t, lower g = Some t /\ cty_ok t = true) \/ (lower g = None /\ In name gen_outside).
+Proof. exact gen_covered. Qed.
+Print Assumptions C08_generated_covered.
+
+Theorem C08_generated_roundtrip : forall name g t v e, In (name, g) gen_types -> lower g = Some t ->
+  wfv t v = true -> tenc t v = Some e -> tdec_bytes t e = Ok v.
+Proof. exact gen_roundtrip. Qed.
+Print Assumptions C08_generated_roundtrip.
+
+Theorem C08_generated_canonical : forall name g t b v, In (name, g) gen_types -> lower g = Some t ->
+  bytes_ok b -> tdec_bytes t b = Ok v -> tenc t v = Some b /\ wfv t v = true.
+Proof. exact gen_canonical. Qed.
+Print Assumptions C08_generated_canonical.
+
+(* what the rlp package makes of account.Account and eth_tx.txdata (unexported field / "-" field dropped,
+   "nil" pointer kept) *)
+Example C08_generated_account_txdata :
+  option_map lower (lookup_gty "account.Account" gen_types) = Some (Some t_account) /\
+  option_map lower (lookup_gty "eth_tx.txdata" gen_types) = Some (Some t_txdata).
+Proof. split; [exact gen_account_lower | exact gen_txdata_lower]. Qed.
+
+(* non-vacuity: a legacy transaction (contract creation: nil recipient) in the generated txdata shape
+   satisfies the hypotheses; its bytes decode, and the same bytes with 0xC0 for the recipient do not *)
+Example C08_codec_example :
+  let v := VList [VNum 1; VNum 1; VNum 21000; VNil; VNum 258; VBytes []; VNum 27; VNum 5; VNum 7] in
+  cty_ok t_txdata = true /\ wfv t_txdata v = true /\
+  tenc t_txdata v = Some (unhex "cd010182520880820102801b0507"%string) /\
+  tdec_bytes t_txdata (unhex "cd010182520880820102801b0507"%string) = Ok v /\
+  tdec_bytes t_txdata (unhex "cd0101825208c0820102801b0507"%string) = Err EExpectedString.
+Proof. vm_compute. repeat split; reflexivity. Qed.
+
+(* ---------- the Stream state machine (Stream.v): input limit and list bounds, over ALL operation sequences ---------- *)
+(* NewStream(bytes.NewReader(b), limit) followed by any sequence of Kind / Bytes / Raw / Uint / Bool / List /
+   ListEnd calls (successful or not): the stream has taken at most `limit` bytes (or len b when the limit is
+   discovered from the reader) from its reader, and no list frame was read past its declared size. *)
+Theorem C08_stream_reads_within_limit : forall b limit ops obs s',
+  u64 b limit -> run ops (new_stream b limit) = (obs, s') ->
+  len b - len (inp s') <= eff_limit b limit /\ len (inp s') <= len b /\ frames_ok (stack s').
+Proof. exact stream_bounded. Qed.
+Print Assumptions C08_stream_reads_within_limit.
+
+(* after any history, a size reported by Kind is covered by declared input that is still unread: the buffers
+   that Bytes and Raw allocate for it (make([]byte, size)) never exceed the declared input *)
+Theorem C08_stream_alloc_bounded : forall b limit ops obs s1 k n s2,
+  u64 b limit -> run ops (new_stream b limit) = (obs, s1) -> s_kind s1 = (SOk (k, n), s2) ->
+  n <= remaining s2 /\ remaining s2 <= eff_limit b limit.
+Proof. exact stream_alloc_bounded. Qed.
+Print Assumptions C08_stream_alloc_bounded.
+
+Theorem C08_stream_results_bounded : forall b limit ops obs s1 x s2,
+  u64 b limit -> run ops (new_stream b limit) = (obs, s1) ->
+  (s_bytes_op s1 = (SOk x, s2) -> len x <= eff_limit b limit + 1) /\
+  (s_raw_op s1 = (SOk x, s2) -> len x <= eff_limit b limit + 9).
+Proof. exact stream_results_bounded. Qed.
+Print Assumptions C08_stream_results_bounded.
+
+(* non-vacuity + re-arm behaviour: a list with a too-long declared element, read with a limit shorter than
+   the reader: Kind after List reports the element error, ListEnd refuses (not at EOL) *)
+Example C08_stream_example :
+  fst (run [OList; OKind; OBytes; OListEnd; OKind] (new_stream (unhex "c3820102ff"%string) 4)) =
+    [BNum 3; BKind 1 2; BBytes [1; 2]; BUnit; BErr 1] /\
+  fst (run [OList; OUint 8; OListEnd] (new_stream (unhex "c28501"%string) 0)) = [BNum 2; BErr 3; BErr 14].
 Proof. vm_compute. split; reflexivity. Qed.
